@@ -241,7 +241,8 @@ func suitesFor(prop string) []Suite {
 			return genDiffCase(r)
 		}, 700, 10000, postDiff)}
 	case "C10":
-		return []Suite{cmdSuite("sum", func(r *Rng, i int, tier string) []Op { return genSumCase(r, "C10") }, 600, 8000, postAny)}
+		return []Suite{cmdSuite("sum", func(r *Rng, i int, tier string) []Op { return genSumCase(r, "C10") }, 600, 8000, postAny),
+			{Name: "sum-many", Custom: sumManySuite}}
 	case "C11":
 		return []Suite{cmdSuite("sumcopy", func(r *Rng, i int, tier string) []Op {
 			if i%6 == 4 {
@@ -256,7 +257,8 @@ func suitesFor(prop string) []Suite {
 		return []Suite{cmdSuite("remote", func(r *Rng, i int, tier string) []Op { return genRemoteCase(r) }, 300, 5000, postRemote),
 			{Name: "remote-big", Custom: bigRemoteSuite}}
 	case "C18":
-		return []Suite{cmdSuite("view", func(r *Rng, i int, tier string) []Op { return genViewCase(r) }, 600, 10000, postView)}
+		return []Suite{cmdSuite("view", func(r *Rng, i int, tier string) []Op { return genViewCase(r) }, 600, 10000, postView),
+			{Name: "view-big", Custom: bigViewSuite}}
 	case "C13":
 		return []Suite{{Name: "lock", Custom: lockSuite}}
 	case "C17":
@@ -285,10 +287,11 @@ func suitesFor(prop string) []Suite {
 	case "C15":
 		return []Suite{hostileCodecSuite(), hostileFileSuite()}
 	case "C14":
-		return []Suite{codecSuite()}
+		return []Suite{codecSuite(), {Name: "codec-huge", Custom: hugePrefixSuite}}
 	case "C05":
 		// the CLI clause: a write that fails before its final Sync leaves the destination alone
-		return []Suite{libSuite(prop), cmdSuite("cli-fail", func(r *Rng, i int, tier string) []Op { return genCliFailCase(r) }, 40, 1500, postAny)}
+		return []Suite{libSuite(prop), cmdSuite("cli-fail", func(r *Rng, i int, tier string) []Op { return genCliFailCase(r) }, 40, 1500, postAny),
+			{Name: "handoff", Custom: handoffSuite}}
 	case "C01", "C02", "C03", "C04":
 		return []Suite{libSuite(prop)}
 	}
